@@ -254,6 +254,12 @@ def run_interact(ch, cfg, pieces, merge, ending, logs=False):
             del env.hbuf[os_][:]                 # what was typed after the escape is gone with the first session
             n_screen, n_child = len(env.sent.get(os_, b'')), len(env.sent.get(sp.hs_master, b''))
             left0 = len(env.hbuf.get(sp.hs_master, b''))
+            # the program changes the terminal settings between the two sessions: THOSE must be restored
+            mid = termios.tcgetattr(os_)
+            mid[3] &= ~termios.ECHO
+            mid[6][termios.VINTR] = b'\x02'
+            termios.tcsetattr(os_, termios.TCSANOW, mid)
+            mode_before = termios.tcgetattr(os_)
             env.add('fn', (lambda: env.hbuf[os_].extend(b'b\r')))
             env.add('w', b'wv', fd=sp.hs_slave)
             env.add('fn', (lambda: env.hbuf[os_].extend(escbyte)))
